@@ -1361,6 +1361,28 @@ SPECIAL_EXEMPT = {   # class -> {field: reason} for user-provided copy operation
     'entry_pt': {'*': 'no data'}, 'direct': {'*': 'no data'},
 }
 
+KEEP_ON_ASSIGN = {   # (back-end, class) -> (member, what it is): must survive an assignment unchanged
+    ('back', 'exit_pt'): ('m_forward', 'is the forwarder bound to the machine containing the submachine'),
+    ('back11', 'exit_pt'): ('m_forward', 'is the forwarder bound to the machine containing the submachine'),
+}
+
+def _written_members(f):
+    """data members of *this a hand-written special member function writes (assignments, mem-initialisers, container calls)"""
+    written = set(members_touched(f))
+    for dst, src, full in array_copies(f):
+        if dst: written.add(dst)
+    for n in f.nodes:
+        if n and n['k'] == 'init' and n.get('member') and n.get('written'): written.add(n['member'])
+        if n and n['k'] == 'call' and n.get('obj'):
+            # container members filled by calls (assign / insert / push_back / operator=)
+            ch = member_chain(f, n['obj'])
+            o = f.nodes[n['obj']]
+            if ch and n.get('n') in ('assign', 'insert', 'push_back', 'emplace_back', 'operator=', 'swap', 'resize', 'reserve') or (ch and n.get('op') == '='):
+                b = o
+                while b and b['k'] == 'mem' and f.nodes[b['b']] and f.nodes[b['b']]['k'] == 'mem': b = f.nodes[b['b']]
+                if b and b['k'] == 'mem' and f.nodes[b['b']] and f.nodes[b['b']]['k'] == 'this': written.add(ch[0])
+    return written
+
 @rule('copyspecial')
 def copyspecial(F, R):
     """C15.fields: a user-provided copy constructor / copy assignment of a back-end class copies every data member of the class
@@ -1368,25 +1390,24 @@ def copyspecial(F, R):
     for f in F.funcs:
         if not is_backend(f) or not f.blocks: continue
         sp = f.d.get('sp')
+        keep = KEEP_ON_ASSIGN.get((backend_of(f), f.cls))
+        if keep and sp in ('copy_assign', 'move_assign'):
+            # C15.keep: a member that binds the object to its *containing* machine stays as it is when the object is assigned
+            # (the container of the assigned-to object did not change): the assignment is hand-written and does not write it
+            R.seen(f); R.anchor('bound-member-assign:' + backend_of(f))
+            auto = bool(f.d.get('implicit') or f.d.get('defaulted'))
+            w_ = set() if auto else _written_members(f)
+            okk = not auto and keep[0] not in w_
+            R.ob('C15.keep', okk, {'func': f.q, 'member': keep[0], 'compiler_generated': auto, 'written': sorted(w_)})
+            if not okk:
+                R.find('C15.keep', f, 'bound-member:' + keep[0], 'the %s of %s %s %s, which %s: after `b = a` the exit points of b\'s submachines forward to a\'s machine (or to a destroyed one) and b never leaves the submachine' % ('copy assignment' if sp == 'copy_assign' else 'move assignment', f.cls, 'is compiler-generated and therefore copies' if auto else 'writes', keep[0], keep[1]))
         if sp not in ('copy_ctor', 'copy_assign') or f.d.get('implicit') or f.d.get('defaulted'): continue
         rec = F.rec_by_type(F.class_type(f))
         if rec is None or not rec['fields']: continue
         ex = SPECIAL_EXEMPT.get(f.cls, {})
         if '*' in ex: continue
         R.seen(f); R.anchor('user-copy-op:' + backend_of(f))
-        written = set(members_touched(f))
-        for dst, src, full in array_copies(f):
-            if dst: written.add(dst)
-        for n in f.nodes:
-            if n and n['k'] == 'init' and n.get('member') and n.get('written'): written.add(n['member'])
-            if n and n['k'] == 'call' and n.get('obj'):
-                # container members filled by calls (assign / insert / push_back / operator=)
-                ch = member_chain(f, n['obj'])
-                o = f.nodes[n['obj']]
-                if ch and n.get('n') in ('assign', 'insert', 'push_back', 'emplace_back', 'operator=', 'swap', 'resize', 'reserve') or (ch and n.get('op') == '='):
-                    b = o
-                    while b and b['k'] == 'mem' and f.nodes[b['b']] and f.nodes[b['b']]['k'] == 'mem': b = f.nodes[b['b']]
-                    if b and b['k'] == 'mem' and f.nodes[b['b']] and f.nodes[b['b']]['k'] == 'this': written.add(ch[0])
+        written = _written_members(f)
         missing = [fd['n'] for fd in rec['fields'] if fd['n'] and fd['n'] not in written and fd['n'] not in ex]
         # a hand-written assignment must also assign the base-class part (for exit_pt<ExitPoint> that is the user's pseudo-state
         # class with whatever data it holds); the compiler does this only for a defaulted operator
